@@ -526,7 +526,7 @@ var c56Frags = []c56Frag{
 	{"HT", "\t"}, {"*", "*"}, {"A", "A"}, {"_", "_"}, {"0", "0"}, {"-", "-"}, {".", "."},
 	{`"a"`, `"a"`}, {"?0", "?0"}, {"?1", "?1"}, {"tok", "tok"}, {"1.5", "1.5"},
 	{`"`, `"`}, {`\`, `\`}, {`"\""`, `"\""`}, {":", ":"}, {"aGk=", "aGk="}, {"?", "?"}, {"@", "@"}, {"@1", "@1"},
-	{"%", "%"}, {`%"`, `%"`}, {"%c3%bc", "%c3%bc"}, {"%C3", "%C3"}, {"%4A", "%4A"}, {"%ef%bf%bd", "%ef%bf%bd"},
+	{"%", "%"}, {`%"`, `%"`}, {"%c3%bc", "%c3%bc"}, {"%C3", "%C3"}, {"%4A", "%4A"}, {"%ef%bf%bd", "%ef%bf%bd"}, {"%c3", "%c3"}, {"%bc", "%bc"},
 	{"a/b:c", "a/b:c"}, {"1.1234", "1.1234"}, {"d12", "123456789012"}, {"d13", "1234567890123"},
 	{"d15", "123456789012345"}, {"d16", "1234567890123456"}, {"x80", "\x80"},
 }
@@ -597,14 +597,25 @@ func c56Check(w *vx.W, labels []string) { c56CheckText(w, c56Text(labels)) }
 
 // c56Tmpl is one input of the byte-table part: a template with one or two holes filled with arbitrary bytes.
 type c56Tmpl struct {
-	T    int `json:"template"`
-	X, Y int `json:"x_y"`
+	T int `json:"template"`
+	X int `json:"x"`
+	Y int `json:"y"`
 }
 
-// c56Templates: %x / %y are replaced by the bytes X / Y.
+// c56Templates: %x / %y are replaced by the bytes X / Y, %X / %Y by the
+// percent escapes ("%" and two lower-case hex digits) of the bytes X / Y, %% by "%".
 var c56Templates = []string{
 	"%x", "%x%y", "\"%x\"", "\"\\%x\"", ":%x:", "%%\"%x\"", "%%\"%%%x%y\"", "a%x", "a%xb", "A%x", "*%x", "a;%x", "a;b%x", "a;b=%x", "%x=1", "b%x=1",
 	"(%x)", "(a%xb)", "a,%xb", "a%x,b", "?%x", "@%x", "-%x", "1%x", "1.%x", "1.5%x", "@1%x", "a=%x", "a;b%xc",
+	// display strings: UTF-8 validity of the decoded octets (§4.2.10 step 4.4.1).
+	// every octet pair: adjacent, separated by a literal, followed / preceded by a literal
+	"%%\"%X%Y\"", "%%\"%Xa%Y\"", "%%\"%X %Y\"", "%%\"%X%Ya\"", "%%\"a%X%Y\"",
+	// every literal byte inside a 2-, 3- and 4-octet sequence
+	"%%\"%%c3%x%%bc\"", "%%\"%%e2%x%%82%%ac\"", "%%\"%%e2%%82%x%%ac\"", "%%\"%%f0%x%%9f%%98%%80\"", "%%\"%%f0%%9f%x%%98%%80\"", "%%\"%%f0%%9f%%98%x%%80\"",
+	// every second/third octet after each kind of 3-octet lead (e0: overlong below a0; ed: surrogates from a0; e1/ee: plain), also with a literal in between
+	"%%\"%%e0%X%Y\"", "%%\"%%e1%X%Y\"", "%%\"%%ed%X%Y\"", "%%\"%%ee%X%Y\"", "%%\"%%e2%Xa%Y\"", "%%\"%%e2a%X%Y\"",
+	// every second/third octet after each kind of 4-octet lead (f0: overlong below 90; f4: beyond U+10FFFF from 90; f1: plain), every third/fourth octet, and literals in between
+	"%%\"%%f0%X%Y%%80\"", "%%\"%%f1%X%Y%%80\"", "%%\"%%f4%X%Y%%80\"", "%%\"%%f0%%9f%X%Y\"", "%%\"%%f0%Xa%Y%%80\"", "%%\"%%f0%%9f%Xa%Y\"", "%%\"%%f0%X%Ya%%80\"",
 }
 
 func c56TmplText(x c56Tmpl) string {
@@ -617,6 +628,10 @@ func c56TmplText(x c56Tmpl) string {
 				b.WriteByte(byte(x.X))
 			case 'y':
 				b.WriteByte(byte(x.Y))
+			case 'X':
+				fmt.Fprintf(&b, "%%%02x", x.X)
+			case 'Y':
+				fmt.Fprintf(&b, "%%%02x", x.Y)
 			default:
 				b.WriteByte('%')
 			}
@@ -626,6 +641,37 @@ func c56TmplText(x c56Tmpl) string {
 		b.WriteByte(t[i])
 	}
 	return b.String()
+}
+
+// c56DS is one input of the display-string part: a display string whose content is a
+// sequence of elements (unescaped characters and percent escapes), placed in a context.
+type c56DS struct {
+	Ctx  int      `json:"context"`
+	Body []string `json:"body"`
+}
+
+// c56DSContexts: %s is replaced by the display-string content. The contexts reach
+// consumeDisplayString directly, as item, as dictionary value, as parameter value
+// (of an item and alone) and as inner-list member, and once without the closing quote.
+var c56DSContexts = []string{`%"%s"`, `%"%s`, `k=%"%s"`, `a;b=%"%s";c`, `;b=%"%s"`, `(%"%s" a)`}
+
+// c56DSAlpha: the content elements. Unescaped characters; escaped ASCII; then one
+// octet on each side of every boundary of the UTF-8 well-formedness table (Unicode
+// Table 3-7): continuation octets 80 8f|90 9f|a0 bf (the second-octet ranges after
+// e0, ed, f0, f4 split at 90 and a0), leads c0 c1 (always overlong) | c2..df | e0 |
+// e1..ec | ed | ee ef | f0 | f1..f3 | f4 | f5..ff (never valid).
+var c56DSAlpha = []string{
+	"a", " ", "%41", "%7f",
+	"%80", "%8f", "%90", "%9f", "%a0", "%bf",
+	"%c0", "%c1", "%c2", "%df", "%e0", "%e1", "%ec", "%ed", "%ee", "%ef", "%f0", "%f1", "%f3", "%f4", "%f5", "%ff",
+}
+
+// c56DSCore is the sub-alphabet for longer contents: an unescaped and an escaped ASCII
+// character, one lead octet of a 2-, 3- and 4-octet sequence, the lowest and highest continuation octet.
+var c56DSCore = []string{"a", "%41", "%c3", "%e2", "%f0", "%80", "%bf"}
+
+func c56DSText(x c56DS) string {
+	return strings.Replace(c56DSContexts[x.Ctx], "%s", strings.Join(x.Body, ""), 1)
 }
 
 func c56CheckText(w *vx.W, s string) {
@@ -822,7 +868,7 @@ func TestVerif_C56(t *testing.T) {
 		c.Rule(fmt.Sprintf("byte tables: each of the %d templates %q with its hole(s) filled by every byte value 0..255 (two-hole templates: every pair), so that every character-class decision (tchar, key characters, string/display-string ranges, base64 alphabet, hex digits, digits, separators) is taken on every byte", len(c56Templates), c56Templates))
 		vx.Enumerate(c, "byte-tables", vx.Opts{}, func(yield func(c56Tmpl) bool) {
 			for ti, t := range c56Templates {
-				two := strings.Contains(t, "%y")
+				two := strings.Contains(t, "%y") || strings.Contains(t, "%Y")
 				for x := 0; x < 256; x++ {
 					if !two {
 						if !yield(c56Tmpl{T: ti, X: x}) {
@@ -838,5 +884,15 @@ func TestVerif_C56(t *testing.T) {
 				}
 			}
 		}, func(w *vx.W, x c56Tmpl) { c56CheckText(w, c56TmplText(x)) })
+		nDS, nDSCore := vx.Pick(c, 3, 4), vx.Pick(c, 6, 7)
+		c.Rule(fmt.Sprintf("display strings: every sequence of 0..%d content elements of the %d-element alphabet %q (unescaped characters, escaped ASCII, and percent-escaped octets on each side of every boundary of the UTF-8 well-formedness table: continuation octets, lead octets of 2-, 3- and 4-octet sequences, overlong, surrogate, beyond-U+10FFFF and never-valid leads), and every sequence of %d..%d elements of the sub-alphabet %q, placed in each of the %d contexts %q; so truncated sequences, stray continuation octets, and sequences interrupted by unescaped or escaped ASCII and then continued are all enumerated; the reference percent-decodes the whole content and applies utf8.Valid to the complete octet string (§4.2.10 step 4.4.1)", nDS, len(c56DSAlpha), c56DSAlpha, nDS+1, nDSCore, c56DSCore, len(c56DSContexts), c56DSContexts))
+		vx.Enumerate(c, "display-strings", vx.Opts{}, func(yield func(c56DS) bool) {
+			for ctx := range c56DSContexts {
+				each := func(body []string) bool { return yield(c56DS{Ctx: ctx, Body: body}) }
+				if !vx.Strings(c56DSAlpha, 0, nDS, each) || !vx.Strings(c56DSCore, nDS+1, nDSCore, each) {
+					return
+				}
+			}
+		}, func(w *vx.W, x c56DS) { c56CheckText(w, c56DSText(x)) })
 	})
 }
